@@ -80,7 +80,7 @@ package soyhtml
 //@   ghost mode ast.AutoescapeType = 0
 //@   ghost anyCancel bool = false
 //@   ghost writes int = 0
-//@   at call (*state).walk#0 after set mode = s.autoescape
+//@   at call (*state).eval#0 after set mode = s.autoescape
 //@   at call soyhtml.(*state).evalPrint$1#0 after set anyCancel = anyCancel || directive.CancelAutoescape
 //@   at call soyhtml.htmlEscapeString#0 assert[escaped-only-if-on-and-not-cancelled] mode != ast.AutoescapeOff && !anyCancel && writes == 0
 //@   at call soyhtml.htmlEscapeString#0 set writes = writes + 1
@@ -167,7 +167,7 @@ package soyhtml
 // rest of a template.
 //@ func (*state).walk
 //@   like stateMethod
-//@   props C12 C08 C09 C03
+//@   props C12 C08 C09 C03 C13
 //@   onlywriter[escaping-mode-set-only-on-entering-a-template;C03] soyhtml.state.autoescape
 //@   at call store#1 assert[escaping-mode-set-only-on-entering-a-template;C03] typeis(node, *ast.TemplateNode) && val == unbox(node, *ast.TemplateNode).Autoescape && val != 0
 //@   splitreturns
@@ -189,8 +189,10 @@ package soyhtml
 //@   abstractfloats
 //@   modifies *
 //@   loop 7
-//@     invariant[scope-7;C02] len(s.context) == old(len(s.context)) && forall(i, 0, len(s.context), s.context[i].vars == old(s.context[i].vars) && unchangedmap(s.context[i].vars))
-//@     orderfree -- the items of a map literal are evaluated in map order into a fresh map; evaluating an expression has no effect other than its value or a runtime error, so the order can only change which of several failing items is named in the error of a failed rendering (that text also carries a stack dump and is not reproducible anyway)
+//@     bag keys
+//@     invariant fresh(keys)
+//@   loop 8
+//@     invariant[scope-8;C02] len(s.context) == old(len(s.context)) && forall(i, 0, len(s.context), s.context[i].vars == old(s.context[i].vars) && unchangedmap(s.context[i].vars))
 //@   ghost werr bool = false
 //@   at call io.Writer.Write#* assert[no-write-after-failure] !werr
 //@   at call io.Writer.Write#* after set werr = werr || res1 != nil
@@ -218,20 +220,20 @@ package soyhtml
 //@   at call store#10 assert[int-literal;C01] typeis(val, data.Int) && unbox(val, data.Int) == unbox(node, *ast.IntNode).Value
 //@   at call store#11 assert[float-literal;C01] typeis(val, data.Float) && same(unbox(val, data.Float), unbox(node, *ast.FloatNode).Value)
 //@   at call store#12 assert[bool-literal;C01] typeis(val, data.Bool) && unbox(val, data.Bool) == unbox(node, *ast.BoolNode).True
-//@   at call store#19 assert[negate-int;C01] typeis(d2, data.Int) && typeis(val, data.Int) && unbox(val, data.Int) == -unbox(d2, data.Int)
-//@   at call store#20 assert[negate-float;C01] typeis(d2, data.Float) && typeis(val, data.Float) && same(unbox(val, data.Float), -unbox(d2, data.Float))
-//@   at call store#24 assert[add-float;C01] !(typeis(a1, data.Int) && typeis(a2, data.Int)) && isnum(a1) && isnum(a2) && typeis(val, data.Float) && same(unbox(val, data.Float), numval(a1) + numval(a2))
-//@   at call store#25 assert[sub-int;C01] typeis(a1, data.Int) && typeis(a2, data.Int) && typeis(val, data.Int) && unbox(val, data.Int) == unbox(a1, data.Int) - unbox(a2, data.Int)
-//@   at call store#26 assert[sub-float;C01] !(typeis(a1, data.Int) && typeis(a2, data.Int)) && isnum(a1) && isnum(a2) && typeis(val, data.Float) && same(unbox(val, data.Float), numval(a1) - numval(a2))
-//@   at call store#27 assert[div-is-float;C01] isnum(a1) && isnum(a2) && typeis(val, data.Float) && same(unbox(val, data.Float), numval(a1) / numval(a2))
-//@   at call store#28 assert[mul-int;C01] typeis(a1, data.Int) && typeis(a2, data.Int) && typeis(val, data.Int) && unbox(val, data.Int) == unbox(a1, data.Int) * unbox(a2, data.Int)
-//@   at call store#29 assert[mul-float;C01] !(typeis(a1, data.Int) && typeis(a2, data.Int)) && isnum(a1) && isnum(a2) && typeis(val, data.Float) && same(unbox(val, data.Float), numval(a1) * numval(a2))
-//@   at call store#33 assert[less-than;C01] isnum(d1) && isnum(d2) && typeis(val, data.Bool) && unbox(val, data.Bool) == (numval(d1) < numval(d2))
-//@   at call store#34 assert[less-equal;C01] isnum(d1) && isnum(d2) && typeis(val, data.Bool) && unbox(val, data.Bool) == (numval(d1) <= numval(d2))
-//@   at call store#35 assert[greater-than;C01] isnum(d1) && isnum(d2) && typeis(val, data.Bool) && unbox(val, data.Bool) == (numval(d1) > numval(d2))
-//@   at call store#36 assert[greater-equal;C01] isnum(d1) && isnum(d2) && typeis(val, data.Bool) && unbox(val, data.Bool) == (numval(d1) >= numval(d2))
-//@   at call store#40 assert[elvis-keeps-non-null;C01] nevals == 1 && !typeis(e2, data.Null) && !typeis(e2, data.Undefined) && val == e2
-//@   at call store#41 assert[elvis-falls-back;C01] nevals == 2 && (typeis(e1, data.Null) || typeis(e1, data.Undefined)) && val == e2
+//@   at call store#20 assert[negate-int;C01] typeis(d2, data.Int) && typeis(val, data.Int) && unbox(val, data.Int) == -unbox(d2, data.Int)
+//@   at call store#21 assert[negate-float;C01] typeis(d2, data.Float) && typeis(val, data.Float) && same(unbox(val, data.Float), -unbox(d2, data.Float))
+//@   at call store#25 assert[add-float;C01] !(typeis(a1, data.Int) && typeis(a2, data.Int)) && isnum(a1) && isnum(a2) && typeis(val, data.Float) && same(unbox(val, data.Float), numval(a1) + numval(a2))
+//@   at call store#26 assert[sub-int;C01] typeis(a1, data.Int) && typeis(a2, data.Int) && typeis(val, data.Int) && unbox(val, data.Int) == unbox(a1, data.Int) - unbox(a2, data.Int)
+//@   at call store#27 assert[sub-float;C01] !(typeis(a1, data.Int) && typeis(a2, data.Int)) && isnum(a1) && isnum(a2) && typeis(val, data.Float) && same(unbox(val, data.Float), numval(a1) - numval(a2))
+//@   at call store#28 assert[div-is-float;C01] isnum(a1) && isnum(a2) && typeis(val, data.Float) && same(unbox(val, data.Float), numval(a1) / numval(a2))
+//@   at call store#29 assert[mul-int;C01] typeis(a1, data.Int) && typeis(a2, data.Int) && typeis(val, data.Int) && unbox(val, data.Int) == unbox(a1, data.Int) * unbox(a2, data.Int)
+//@   at call store#30 assert[mul-float;C01] !(typeis(a1, data.Int) && typeis(a2, data.Int)) && isnum(a1) && isnum(a2) && typeis(val, data.Float) && same(unbox(val, data.Float), numval(a1) * numval(a2))
+//@   at call store#34 assert[less-than;C01] isnum(d1) && isnum(d2) && typeis(val, data.Bool) && unbox(val, data.Bool) == (numval(d1) < numval(d2))
+//@   at call store#35 assert[less-equal;C01] isnum(d1) && isnum(d2) && typeis(val, data.Bool) && unbox(val, data.Bool) == (numval(d1) <= numval(d2))
+//@   at call store#36 assert[greater-than;C01] isnum(d1) && isnum(d2) && typeis(val, data.Bool) && unbox(val, data.Bool) == (numval(d1) > numval(d2))
+//@   at call store#37 assert[greater-equal;C01] isnum(d1) && isnum(d2) && typeis(val, data.Bool) && unbox(val, data.Bool) == (numval(d1) >= numval(d2))
+//@   at call store#41 assert[elvis-keeps-non-null;C01] nevals == 1 && !typeis(e2, data.Null) && !typeis(e2, data.Undefined) && val == e2
+//@   at call store#42 assert[elvis-falls-back;C01] nevals == 2 && (typeis(e1, data.Null) || typeis(e1, data.Undefined)) && val == e2
 //@   ensures[add-int;C01] typeis(node, *ast.AddNode) && typeis(a1, data.Int) && typeis(a2, data.Int) ==> typeis(s.val, data.Int) && unbox(s.val, data.Int) == unbox(a1, data.Int) + unbox(a2, data.Int)
 //@   ensures[add-string;C01] typeis(node, *ast.AddNode) && (typeis(a1, data.String) || typeis(a2, data.String)) ==> typeis(s.val, data.String)
 //@   ensures[mod-int;C01] typeis(node, *ast.ModNode) ==> typeis(a1, data.Int) && typeis(a2, data.Int) && typeis(s.val, data.Int) && unbox(s.val, data.Int) == unbox(a1, data.Int) % unbox(a2, data.Int)
